@@ -45,7 +45,8 @@ PLAN = {
         {"pkg": "side", "test": "FuzzC14", "kind": "fuzz", "fuzztime": {"thorough": "180s"}, "checks": {"quick": 0, "thorough": 0}, "replay": None}]},
     "C15": {"level": "exploration", "units": [
         unit("disc", "TestC15", 500, 10000, replay="TestReplayC15"),
-        unit("disc", "TestC15Process", 50, 400, seed_off=700, workers={"quick": 1, "thorough": 4})]},
+        unit("disc", "TestC15Process", 50, 400, seed_off=700, workers={"quick": 1, "thorough": 4}),
+        unit("disc", "TestC15Explore", 300, 4000, seed_off=900)]},
     "C16": {"level": "exploration", "units": [
         unit("cfgh", "TestC16", 250, 6000, replay="TestReplayC16", shrinktime="30s"),
         unit("cfgh", "TestC16Process", 40, 300, seed_off=700, workers={"quick": 1, "thorough": 4})]},
@@ -58,5 +59,7 @@ PLAN = {
     "C19": {"level": "exploration", "units": [
         unit("cyc", "TestC19", 1500, 15000, replay="TestReplayC19"),
         unit("k8s", "TestC19K8s", 300, 4000, replay="TestReplayC19K8s", seed_off=900)]},
-    "C20": {"level": "exploration", "units": [unit("expl", "TestC20", 40, 600, replay="TestReplayC20", shrinktime="30s")]},
+    "C20": {"level": "exploration", "units": [
+        unit("expl", "TestC20", 40, 600, replay="TestReplayC20", shrinktime="30s"),
+        unit("expl", "TestC20Flood", 4, 12, seed_off=900, shrinktime="20s")]},
 }
